@@ -523,6 +523,32 @@ func sameGlobal(a, b *globalObs) bool {
 	return string(ja) == string(jb)
 }
 
+// snippetBad: by the oracle's own reading, the snippet has to be dropped
+func snippetBad(v string, star bool, set map[string]bool) bool {
+	if star {
+		return true
+	}
+	for _, l := range strings.Split(v, "\n") {
+		if t := firstTok(l); t != "" && set[t] {
+			return true
+		}
+	}
+	return false
+}
+
+func sameNonBlank(a, b []string) bool {
+	f := func(in []string) []string {
+		var out []string
+		for _, l := range in {
+			if t := strings.TrimSpace(l); t != "" {
+				out = append(out, t)
+			}
+		}
+		return out
+	}
+	return eqLines(f(a), f(b))
+}
+
 func expectLines(v string) []string {
 	if v == "" {
 		return nil
@@ -550,12 +576,6 @@ func oracle(in input, obs observed) []fail {
 		fs = append(fs, fail{"global-affected", "global-scope snippets differ between the run with and the run without --disable-config-keywords"})
 	}
 	if in.Kind == "updater" {
-		for key, got := range map[string][]string{"config-global": obs.Global.Global, "config-defaults": obs.Global.Defaults,
-			"config-frontend-early": obs.Global.FeEarly, "config-sections": obs.Global.Sections, "config-tcp": obs.Global.TCP} {
-			if !eqLines(got, expectLines(string(in.Global[key]))) {
-				fs = append(fs, fail{"global-affected", fmt.Sprintf("%s: configured %q, got %q", key, in.Global[key], got)})
-			}
-		}
 		check := func(where string, adds []add, emitted []string) {
 			if len(adds) == 0 || len(emitted) == 0 {
 				return
@@ -570,14 +590,30 @@ func oracle(in input, obs observed) []fail {
 					break
 				}
 			}
-			whole := false
+			// dropped as a whole: what is emitted comes, line by line, from a snippet that
+			// has no line starting with a listed keyword (blank lines and surrounding
+			// blanks are not compared: how lines are cut is not part of the property)
+			from := false
 			for _, a := range adds {
-				if a.Value != "" && eqLines(emitted, expectLines(string(a.Value))) {
-					whole = true
+				if snippetBad(string(a.Value), star, set) {
+					continue
+				}
+				have := map[string]bool{}
+				for _, l := range strings.Split(string(a.Value), "\n") {
+					have[strings.TrimSpace(l)] = true
+				}
+				all := true
+				for _, l := range emitted {
+					if t := strings.TrimSpace(l); t != "" && !have[t] {
+						all = false
+					}
+				}
+				if all {
+					from = true
 				}
 			}
-			if !whole {
-				fs = append(fs, fail{where + "-partial", fmt.Sprintf("emitted %q is not the whole of any annotation snippet", emitted)})
+			if !from {
+				fs = append(fs, fail{where + "-partial", fmt.Sprintf("emitted %q does not come from an annotation snippet free of disabled keywords", emitted)})
 			}
 		}
 		check("backend", in.Adds, obs.Custom)
@@ -587,7 +623,7 @@ func oracle(in input, obs observed) []fail {
 			if in.TCPDflt != nil {
 				want = string(*in.TCPDflt)
 			}
-			if !eqLines(obs.TCP, expectLines(want)) {
+			if !sameNonBlank(obs.TCP, strings.Split(want, "\n")) {
 				fs = append(fs, fail{"global-affected", fmt.Sprintf("config-tcp-service of the global ConfigMap: configured %q, got %q", want, obs.TCP)})
 			}
 		}
@@ -623,44 +659,34 @@ func oracle(in input, obs observed) []fail {
 			}
 		}
 	}
-	// whole or nothing, per section
-	count := func(snip *B) map[string]int {
-		out := map[string]int{}
-		if snip == nil {
-			return out
+	// dropped as a whole: no line of a snippet that has to be dropped is rendered
+	bad := map[string]bool{}
+	note := func(snip *B) {
+		if snip == nil || !snippetBad(string(*snip), star, set) {
+			return
 		}
 		for _, l := range strings.Split(string(*snip), "\n") {
 			if m := markRe.FindStringSubmatch(l); m != nil {
-				out[m[1]+m[2]]++
+				bad[m[1]+m[2]] = true
 			}
 		}
-		return out
 	}
-	want := map[string]int{}
 	for _, s := range in.Services {
-		for k, v := range count(s.Snippet) {
-			want[k] = v
-		}
+		note(s.Snippet)
 	}
 	for _, g := range in.Ingress {
-		for k, v := range count(g.Snippet) {
-			want[k] = v
-		}
-		for k, v := range count(g.TCPSnip) {
-			want[k] = v
-		}
+		note(g.Snippet)
+		note(g.TCPSnip)
 	}
 	for _, name := range sections {
-		got := map[string]int{}
 		for mk := range present[name] {
 			m := markRe.FindStringSubmatch(mk)
-			if m[1] == "A" || m[1] == "T" {
-				got[m[1]+m[2]]++
-			}
-		}
-		for id, n := range got {
-			if n != want[id] {
-				fs = append(fs, fail{"backend-partial", fmt.Sprintf("section %q has %d of the %d lines of snippet %s", name, n, want[id], id)})
+			if (m[1] == "A" || m[1] == "T") && bad[m[1]+m[2]] {
+				where := "backend"
+				if m[1] == "T" {
+					where = "tcp-service"
+				}
+				fs = append(fs, fail{where + "-partial", fmt.Sprintf("section %q has line %s of snippet %s%s, which has a line starting with a disabled keyword", name, m[3], m[1], m[2])})
 			}
 		}
 	}
@@ -761,8 +787,13 @@ func main() {
 		hx.ReadReplay(o.Replay, &in)
 		inputs = append(inputs, in)
 	} else {
+		for _, f := range c1819.CorpusFiles("c19") {
+			var in input
+			hx.ReadReplay(f, &in)
+			inputs = append(inputs, in)
+		}
 		inputs = append(inputs, corpus()...)
-		nu, np := o.Count(2200, 60000), o.Count(300, 6000)
+		nu, np := o.Count(2200, 24000), o.Count(300, 3000)
 		if o.Search {
 			nu, np = 40000, 4000
 		}
